@@ -4,7 +4,7 @@ Driver for the characterisation models:   lake env lean --run PgVerif/Drv/Char.l
   win bet|lang|da|meso N|L <lo> <hi> [ps] [roq] window selection at ℚ (`N` = p_limits is None)  -> ok min max | refused
   ols [xs] [ys]                                 least squares at ℚ                              -> ok slope intercept | degenerate
   sec <lo> <hi> [curve]                         open section (t-plot / alpha-s limits)          -> ok [i;j;…]
-  meso <method> <geometry> [vol] [thick] [kelvin] [volwindow]    -> ok [widths] [areas] [volumes] [dist] [cum] | refused
+  meso <method> <geometry> [vol] [thick] [kelvin] [volwindow]    -> ok [widths] [areas] [volumes] [dist] [cum] [width increments] | refused
   hktail [widths] [vol]                         tail of the HK functions                        -> ok [avg widths] [dist] [cum]
   hkwidth <geometry> <d_mat> <l>                reported width                                  -> ok n/d | none
   mg <branch> <pore geometry>                   meniscus geometry table                         -> ok <name> | none
@@ -63,7 +63,7 @@ def step (ts : List String) : String :=
     match ratList vol, ratList thick, ratList kelvin with
     | some vol, some thick, some kelvin =>
       match method (α := ℚ) m g vol thick kelvin with
-      | some r => s!"ok {showRatList r.widths} {showRatList r.areas} {showRatList r.volumes} {showRatList r.distribution} {showRatList (cumulative r.volumes vol)}"
+      | some r => s!"ok {showRatList r.widths} {showRatList r.areas} {showRatList r.volumes} {showRatList r.distribution} {showRatList (cumulative r.volumes vol)} {showRatList (increments (fullWidths thick kelvin))}"
       | none => "refused"
     | _, _, _ => "bad-op"
   | ["hktail", widths, vol] =>
